@@ -29,6 +29,10 @@ LEVEL_NOTE = (
     'domain); str.upper on non-ASCII. SUMIF/SUMIFS are excluded while the installed pandas has no '
     'DataFrame.applymap (checked at run time).')
 DESIGN_REF = '§4 C15'
+
+# theorems of the integrated pipeline model (Props/X01.lean) that carry this property's theorems to formula TEXTS in a
+# compiled workbook; re-built and audited with this check (harness/common.prepare: soft obligations)
+TRANSPORT = ('XlVerif.Props.X01', ['X01_COUNTIF_partial', 'X01_VLOOKUP_partial'])
 TRUSTED = [
     'Lean 4.33 kernel; axioms propext, Classical.choice, Quot.sound only',
     'hand-written models lean/XlVerif/Model/C15.lean and Model/Value.lean (correspondence-checked, not proved '
